@@ -280,6 +280,22 @@ pub fn negative_table() -> Vec<Negative> {
             }
         }
     }
+    // out parameters of intrinsic functions: sincos(x, out s, out c), modf(x, out ip), frexp(x, out e)
+    for (intrinsic, call) in [("sincos-sin", "sincos(x, TGT, c);"), ("sincos-cos", "sincos(x, s, TGT);"), ("modf", "float fr = modf(x, TGT);"), ("frexp", "float m = frexp(x, TGT);")] {
+        for (what, bad_t) in [("const-local", "cs"), ("literal", "1.0f"), ("arithmetic-result", "(s + 1.0f)"), ("call-result", "make()"), ("const-parameter", "pc"), ("member-of-const-struct", "cb.x")] {
+            let make = |target: &str| -> String {
+                format!(
+                    "struct B {{ float x; }};\nfloat make() {{ return 1.0f; }}\nvoid test(const float pc, float x)\n{{\n    const float cs = 0.0f;\n    const B cb = {{ 0.0f }};\n    float s = 0.0f;\n    float c = 0.0f;\n    {}\n}}\n",
+                    call.replace("TGT", target)
+                )
+            };
+            out.push(Negative {
+                class: leak(format!("pass-to-intrinsic-out-parameter:{}:{}", intrinsic, what)),
+                bad: make(bad_t),
+                twin: make(if intrinsic == "sincos-cos" { "c" } else { "s" }),
+            });
+        }
+    }
     // members of a struct that is not an lvalue (a call result, a conditional over structs, a cast): not assignable, not
     // bindable to out / inout; the twin goes through a variable
     for (what, bad_t, good_t) in [
